@@ -134,17 +134,18 @@ def _validate_no_namespace_collision(nodes: dict[str, HyperNode]) -> None:
     if not graph_node_names:
         return  # No GraphNodes, nothing to validate
 
-    # Collect ALL outputs (including from other GraphNodes)
-    all_outputs: dict[str, str] = {}  # output_name -> source_node_name
+    # Collect ALL outputs (including from other GraphNodes) with EVERY producer:
+    # a name may have several (exclusive branches), and the verdict must not
+    # depend on which of them is listed last
+    all_outputs: dict[str, list[str]] = {}  # output_name -> source node names
     for node in nodes.values():
         for output in node.outputs:
-            all_outputs[output] = node.name
+            all_outputs.setdefault(output, []).append(node.name)
 
     # Check for collision between GraphNode names and any output
     for gn_name in graph_node_names:
-        if gn_name in all_outputs:
-            source_node = all_outputs[gn_name]
-            # Skip if the GraphNode's own output matches its name (that's fine)
+        # The GraphNode's own output matching its name is fine
+        for source_node in all_outputs.get(gn_name, []):
             if source_node == gn_name:
                 continue
             raise GraphConfigError(
